@@ -5,7 +5,7 @@
     incoming contents of output/scratch buffers (which the signer reuses across rejected attempts). NOT expressible in
     a Gallina model: data races and scheduler effects in the real code — the check observes the crate under
     randomized interleavings on 1..16 threads and scans the source for shared state. *)
-From DV Require Import Base MParams MSign MApi PTape.
+From DV Require Import Base MParams MSign MApi PTape PBuffers.
 
 Theorem C10_history_independent : forall (o : op) (h : list op) (t1 t2 : list Z) (outs : list output) (t1' : list Z),
   deterministic o = true -> run t1 h = Ok (outs, t1') ->
@@ -35,6 +35,26 @@ Theorem C10_seeded_results_ignore_tape :
      signature P sig msg sk false t1 = Ok (s, t1') -> signature P sig msg sk false t2 = Ok (s, t2)).
 Proof. split; [exact keypair_seeded_tape_irrelevant | exact signature_deterministic_tape_irrelevant]. Qed.
 Print Assumptions C10_seeded_results_ignore_tape.
+
+(** caller buffers LONGER than the standard sizes (the slice API asks for "at least"): the call equals the exact-size call on
+    the standard-size prefix with the excess bytes appended unchanged - same key pair / signature, same panics, same tape *)
+Theorem C10_keygen_overlong_buffers :
+  forall (P : params) (pk sk : list Z) (seed : option (list Z)) (tape : list Z),
+  std P -> pPK P <= zlen pk -> pSK P <= zlen sk ->
+  keypair P pk sk seed tape =
+  (do '(pk', sk', t) <- keypair P (firstn (Z.to_nat (pPK P)) pk) (firstn (Z.to_nat (pSK P)) sk) seed tape;
+   Ok (pk' ++ skipn (Z.to_nat (pPK P)) pk, sk' ++ skipn (Z.to_nat (pSK P)) sk, t)).
+Proof. exact keypair_long_buffers. Qed.
+Print Assumptions C10_keygen_overlong_buffers.
+
+Theorem C10_signing_overlong_buffer :
+  forall (P : params) (sig msg sk : list Z) (rand : bool) (tape : list Z),
+  std P -> pSIG P <= zlen sig ->
+  signature P sig msg sk rand tape =
+  (do '(s, t) <- signature P (firstn (Z.to_nat (pSIG P)) sig) msg sk rand tape;
+   Ok (s ++ skipn (Z.to_nat (pSIG P)) sig, t)).
+Proof. exact signature_long_buffer. Qed.
+Print Assumptions C10_signing_overlong_buffer.
 
 (** the one place where an incoming value matters: the hint decoder only SETS entries, so the verifier must (and does)
     pass a zero vector — witnessed on a concrete Dilithium2 signature *)
